@@ -720,6 +720,10 @@ class Crc(Helper):
              8: [0x07, 0x31, 0x9B, 0xD5]}
 
     def valid(self, c):
+        # invert_result is rejected at plain-Python level (`~` on a Signal): keep it in the table for the
+        # simulated level but only for one polynomial per width, so that sampling is not dominated by it
+        if c["inv"] and c["poly"] != 0:
+            return False
         return c["k"] <= max(1, c["L"])
 
     def _poly(self, c):
